@@ -380,6 +380,9 @@ class Core(composites.Composite):
         if discharge and self._trackAssems:
             if self.parent.excore.get("sfp") is not None:
                 self.parent.excore.sfp.add(a1)
+                # blocks exchanged in from an assembly that was never in the core are not yet known
+                for b in a1:
+                    self.blocksByName[b.getName()] = b
             else:
                 runLog.info("No Spent Fuel Pool is found, can't track assemblies.")
         else:
